@@ -10,7 +10,10 @@ def describe(atoms):
     return {"numbers": [int(z) for z in atoms.get_atomic_numbers()],
             "positions_hex": [float(x).hex() for x in atoms.get_positions().ravel()],
             "cell_hex": [float(x).hex() for x in atoms.get_cell().array.ravel()],
-            "pbc": [bool(b) for b in atoms.get_pbc()]}
+            "pbc": [bool(b) for b in atoms.get_pbc()],
+            "decorations": {"constraints": repr(atoms.constraints)[:300],
+                            "extra_arrays": sorted(k for k in atoms.arrays if k not in ("numbers", "positions")),
+                            "info_keys": sorted(map(str, atoms.info))}}
 
 
 def fingerprint(atoms):
@@ -186,6 +189,17 @@ def check_cluster_dimensionality(rec, name, system, params, clusters, cleaned_in
                 ref = matid.geometry.get_dimensionality(system[idx], thr, radii=radii_arr[idx])
             except Exception as e:
                 rec.ood(name); rec.note("C13_reference_raised:%s" % type(e).__name__); continue
+        # ill-conditioned clusters (some pair within 1e-9 of the bond threshold) are out of domain, as in C09: there two
+        # physically identical descriptions of the same atoms (wrapped once / twice) get different answers from the
+        # unchanged library, so no reference value exists (DESIGN section 11)
+        try:
+            from oracles import periodic_rank as prank
+            _, borderline = prank.bond_edges(system.get_positions()[idx], system.get_cell().array, np.array(system.get_pbc(), bool),
+                                             radii_arr[idx], float(thr))
+        except Exception:
+            borderline = False
+        if borderline:
+            rec.ood(name); rec.note("C13_ill_conditioned_threshold"); continue
         rec.judged(name)
         if idx != sorted(idx):
             rec.note("C13_clusters_with_unsorted_index_list")
@@ -294,6 +308,25 @@ def check_classification(rec, name, system, before, after, clf, result, exc, rep
             d = matid.geometry.get_dimensionality(wrapped, clf.cluster_threshold)
         except Exception as e:
             rec.note("C17_reference_raised:%s" % type(e).__name__); return
+    # independent reference for the same quantity (oracles/periodic_rank: union-find over all periodic images, rank of
+    # the cycle lattice): the library function above is itself under test (C09) only for thresholds <= 3.5
+    try:
+        from oracles import periodic_rank as prank
+        rr = resolve_radii(getattr(clf, "radii", "covalent"), wrapped.get_atomic_numbers())
+        if rr is not None and np.all(np.isfinite(rr)) and n <= 200:
+            exp, info = prank.expected_dimensionality(wrapped.get_positions(), wrapped.get_cell().array, np.array(wrapped.get_pbc(), bool),
+                                                      rr, float(clf.cluster_threshold))
+            if info["borderline"] or (info["n_components"] == 1 and info["rank_z"] != info["rank_gf2"]):
+                rec.note("C17_independent_reference_ill_conditioned")
+            else:
+                rec.note("C17_independent_reference_evaluated")
+                if exp != d:
+                    rec.violation(name, "C17|dimensionality-reference-differs|lib=%s|oracle=%s" % (d, exp),
+                                  "get_dimensionality(wrapped, cluster_threshold) = %r but the periodic bonding network has %s"
+                                  % (d, "more than one component" if exp is None else "rank %r" % exp), dict(wit, library=d, oracle=exp))
+                    d = exp
+    except OverflowError:
+        rec.note("C17_independent_reference_too_large")
     t = type(result)
     if d is None:
         expect = {K.Unknown}
